@@ -151,6 +151,7 @@ type World struct {
 	dirSeq   int
 	Stats    map[string]int
 	Certs    map[common.Hash]*types.BlockCert // real quorum certificates of canonical blocks (when a quorum of held keys exists)
+	ViewOverride *Replica // the generator looks at this replica's head state instead of replica 0
 	beforePropose func(p *Replica)
 	beforeDistribute func(b *types.Block, p *Replica)
 	// OnBlock observers run after a block was inserted into every replica
